@@ -286,7 +286,12 @@ def ddmin(ops, test):
 
 
 # ---------------------------------------------------------------- evidence
+NO_EVIDENCE = False  # set while a single case is replayed: a replay never rewrites the evidence of the last check run
+
+
 def write_evidence(prop, tier, seed, level, coverage, wall, violations, assumptions=None, extra=None):
+    if NO_EVIDENCE:
+        return
     ev = {'property_id': prop, 'tier': tier, 'seed': int(seed), 'level': level, 'coverage': coverage,
           'assumptions': assumptions or [], 'wall_s': round(wall, 2), 'violations': int(violations)}
     if extra:
